@@ -113,6 +113,17 @@ T.update({
  'C11-c': ('C11', 'src/auto_tld.c: row "bq" hand-edited from TLD_TYPE_NOT_ASSIGNED to TLD_TYPE_COUNTRY_CODE',
            'a lookup of the one TLD bq (CSV: country-code with manager "Not assigned")'),
 })
+# round 11
+T.update({
+ 'C03-d': ('C03', 'src/utf8_decode.c: 4-byte lead test (c & 0xF8) == 0xF0 became (c & 0xF0) == 0xF0 (lead bytes F8..FF decode as F0..F7)',
+           'mode 6531, a byte 0xF8 followed by three continuation bytes encoding U+10000..U+3FFFF (a.\\xF8\\x90\\x80\\x80.b): ill-formed UTF-8 accepted'),
+ 'C12-d': ('C12', 'src/is_5321_email.c: host-name / address-literal dispatch tests the closing bracket (end[-1] != \']\') instead of the opening one',
+           'mode 5321 only, a domain with a one-sided bracket: a@x1.2.3.4] accepted as IPv4 literal; a@[1.2.3.4 reports another code than the other modes'),
+ 'C13-d': ('C13', 'partial/idn2/eav.c: eav_is_email picks the validator by eav->rfc == EAV_RFC_6531 instead of eav->utf8',
+           'history: eav_setup(822), eav_setup(6531), write rfc = EAV_RFC_822 WITHOUT eav_setup, validate an address with a UTF-8 local part'),
+ 'C19-d': ('C19', 'partial/idn2/is_utf8_domain.c: IDN2_ENCODING_ERROR reported as EEAV_DOMAIN_INVALID_CHAR instead of EEAV_IDN_ERROR',
+           'mode 6531, a domain that is not valid UTF-8 (a@ex\\xC3mple.com): one IDN error code out of many'),
+})
 for sid, (prop, change, needs) in T.items():
     d = os.path.join(S, sid)
     if not os.path.isdir(d):
